@@ -1,5 +1,6 @@
 import GoBatcher.Driver.Admit
 import GoBatcher.Driver.Cycle
+import GoBatcher.Driver.Buffer
 open GoBatcher.Driver
 
 structure Tot where
@@ -13,6 +14,7 @@ def handle (line : String) : Option (Option String × List (String × String)) :
   let obs := parseKV o
   if line.startsWith "admit " then some (checkAdmit inp obs)
   else if line.startsWith "cycle " then some (checkCycle inp obs)
+  else if line.startsWith "buffer " then some (checkBuffer inp obs)
   else none
 
 partial def loop (h : IO.FS.Stream) (t : Tot) (n : Nat) : IO Tot := do
